@@ -59,14 +59,18 @@ Definition mem (s : dset) (d : dn) : bool :=
   | Dg => s_g s | Dst => s_st s | Dm => s_m s | Dsa => s_sa s | Dda => s_da s
   end.
 
-(** The (single) base class: an undecorated class, or an attrs class (never frozen, one
+(** The (single) base class: an undecorated class, or an attrs class (frozen or not, one
     plain field, built with [auto_detect=True]) that is slotted or not, has an
     attrs-generated [__getstate__]/[__setstate__] pair or not, and has a generated
     [__init__] or (else) a generated [__attrs_init__]. *)
-Inductive basek := BPlain | BAttrs (bslots bgs binit : bool).
+Inductive basek := BPlain | BAttrs (bslots bgs binit bfrozen : bool).
 
 Definition base_generated_pair (b : basek) : bool :=
-  match b with BPlain => false | BAttrs _ gs _ => gs end.
+  match b with BPlain => false | BAttrs _ gs _ _ => gs end.
+
+(** The base is a frozen attrs class: its [__setattr__] is [_frozen_setattrs]. *)
+Definition base_frozen (b : basek) : bool :=
+  match b with BPlain => false | BAttrs _ _ _ fz => fz end.
 
 (** The decorator call and the class it is applied to.  [option] arguments:
     [None] = keyword not passed (the signature default applies). *)
@@ -140,6 +144,11 @@ Definition has_own_attribute (c : cfg) (d : dn) : bool := in_cls_dict c d.
 Definition inherits_attrs_getstate (c : cfg) : bool :=
   base_generated_pair (c_base c) && negb (has_own_attribute c Dg).
 
+(** [_has_frozen_base_class(cls)]: [cls.__setattr__ is _frozen_setattrs] — ordinary
+    attribute lookup, so a [__setattr__] in the body hides the frozen base. *)
+Definition has_frozen_base_class (c : cfg) : bool :=
+  base_frozen (c_base c) && negb (has_own_attribute c Dsa).
+
 (** [_determine_attrs_eq_order(cmp, eq, order, None)]; [None] = [ValueError]. *)
 Definition determine_attrs_eq_order (cmp eq order : tri) : option (tri * tri) :=
   if negb (is_none cmp) && (negb (is_none eq) || negb (is_none order)) then None
@@ -179,7 +188,7 @@ Definition wrap (c : cfg) : res :=
   | Some (eq_, order_) =>
     let hash := if is_none (c_uhash c) then c_hash c else c_uhash c in
     let ad := auto_detect c in
-    let is_frozen := c_frozen c in
+    let is_frozen := c_frozen c || has_frozen_base_class c in
     let has_own_setattr := ad && has_own_attribute c Dsa in
     if has_own_setattr && is_frozen then Err EValue else
     (* _ClassBuilder.__init__; [default=slots or _inherits_attrs_getstate(cls)] *)
@@ -332,6 +341,12 @@ Definition generate (c : cfg) (g : group) : bool :=
           else documented_default c g
   end.
 
+(** Effective frozenness: [frozen=True], or inherited from a frozen attrs base (unless the
+    class's own [__setattr__] hides it).  This — not the decorator argument — is what the
+    hash default and the frozen [__setattr__]/[__delattr__] follow. *)
+Definition effectively_frozen (c : cfg) : bool :=
+  c_frozen c || (base_frozen (c_base c) && negb (class_defines c Dsa)).
+
 Inductive hashkind := HUntouched | HGenerated | HUnhashable.
 
 Definition spec_hash (c : cfg) : hashkind :=
@@ -341,7 +356,7 @@ Definition spec_hash (c : cfg) : hashkind :=
   | tN =>
       if auto_detect c && class_defines c Dh then HUntouched
       else if negb (generate c GEq) then HUntouched
-      else if c_frozen c then HGenerated
+      else if effectively_frozen c then HGenerated
       else HUnhashable
   end.
 
@@ -352,7 +367,7 @@ Definition spec_error (c : cfg) : option err :=
     if negb (is_none (c_cmp c)) && (negb (is_none (c_eq c)) || negb (is_none (order_arg c)))
     then Some EValue
     else if is_none (c_cmp c) && is_false (c_eq c) && is_true (order_arg c) then Some EValue
-    else if auto_detect c && body_defines c Dsa && c_frozen c then Some EValue
+    else if auto_detect c && body_defines c Dsa && effectively_frozen c then Some EValue
     else if str_arg c && negb (generate c GRepr) then Some EValue
     else None
   end.
@@ -369,7 +384,7 @@ Definition spec_written (c : cfg) (d : dn) : option prov :=
   | Dh => match spec_hash c with HGenerated => Some pG | HUnhashable => Some pZ | HUntouched => None end
   | Dg | Dst => if generate c GPickle then Some pG else None
   | Dm => if generate c GMatch then Some pG else None
-  | Dsa | Dda => if c_frozen c then Some pG else None
+  | Dsa | Dda => if effectively_frozen c then Some pG else None
   end.
 
 Definition spec_found (c : cfg) (d : dn) : prov :=
